@@ -476,7 +476,7 @@ pub fn run(args: &Args, rep: &mut Report) {
         let total = 13usize.pow(len as u32);
         for code in 0..total {
             idx += 1;
-            if !args.mine(idx) {
+            if !args.mine(idx) || !args.keep(idx / args.nshards.max(1), 12) {
                 continue;
             }
             let mut ops = Vec::new();
